@@ -1,6 +1,7 @@
 ------------------------------- MODULE MC_Pay -------------------------------
 (* Theme "pay": coinbases to two wallets, a payment with change shared by    *)
-(* both wallets, a spend chain, a two-input consolidation, a conflicting     *)
+(* both wallets, a spend chain, a two-input consolidation whose two outputs   *)
+(* go to two addresses of one wallet, a conflicting                          *)
 (* pair (double spend of a wallet coin) and a payment in the other direction.*)
 EXTENDS Gen
 S(o, a, c, v, l) == [owner |-> o, addr |-> a, class |-> c, amt |-> v, lock |-> l]
@@ -15,7 +16,7 @@ MC_TxOuts  == [t \in MC_TxIds |->
                  CASE t = "p1"  -> <<S("w2", 0, "std", 20, 0), S("w1", 1, "std", 29, 0)>>
                    [] t = "p1x" -> <<S("S", 0, "std", 49, 0)>>
                    [] t = "p2"  -> <<S("S", 0, "std", 5, 0), S("w2", 1, "std", 14, 0)>>
-                   [] t = "p3"  -> <<S("w1", 0, "std", 98, 0)>>
+                   [] t = "p3"  -> <<S("w1", 0, "std", 60, 0), S("w1", 1, "std", 38, 0)>>
                    [] t = "p4"  -> <<S("w1", 0, "std", 31, 0), S("w2", 0, "std", 28, 0)>>]
 MC_TxOrder == <<"p1", "p1x", "p4", "p2", "p3">>
 MC_CbId    == <<"c1", "c2", "c3", "c4", "c5", "c6", "c7", "c8", "c9", "c10", "c11", "c12">>
